@@ -54,4 +54,4 @@ def run_sort(spec):
         ret = "exc:" + type(e).__name__
     return {"op": "sort", "fn": fn, "mode": mode, "t": t, "p": p, "vals": vals,
             "inp": list(range(1, len(objs) + 1)) if ret == "ok" else [], "out": out, "ret": ret,
-            "opts": cfg["opts"], "ev": []}
+            "opts": cfg["opts"], "args": {"cmp": 0}, "obs": {}, "ev": []}
